@@ -26,7 +26,9 @@ Oracle : (independent of the model) ping and speed-test cells sent into a plain 
          two or three different originators ending at ONE exit node (real TunnelExitSocket objects, gated opening of the
          transports, first datagrams sent while a socket is still opening, IP-literal v4 / v6 destinations) every reply from
          outside is delivered exactly once to the originator whose datagram it answers, under that circuit's id, with the
-         answering host as origin.
+         answering host as origin; when the exit retires a circuit's socket (as do_remove does: no destroy) and the outside
+         answers inside remove_tunnel_delay (default, > 0), no link carries the returned payload in the clear, every link
+         carries exactly its layers, and the originator gets the reply under the circuit's id - or nothing travels.
 """
 from __future__ import annotations
 
@@ -504,7 +506,55 @@ async def plain_scenarios(ctx, run, r):
                                                 kind, link, direction, h)), True, mk_plain(kind, early)))
                 stats["inject"] += 7
                 await fault_round(run, c, path, direction, link, faults, dict(base, kind="tamper"), honest_dl, data, dest, source)
+    # last (it ends the circuits): the exit retires its socket, the outside still answers
+    stats["retiring_exit"] = 0
+    for h, c in circuits.items():
+        stats["retiring_exit"] += await retiring_exit(ctx, run, r, c, path_of(tn, c))
     return stats
+
+
+async def retiring_exit(ctx, run, r, c, path):
+    """the exit retires the circuit's socket the way do_remove does (inactivity / age / traffic limit: no destroy is sent,
+    the originator still considers the circuit READY); the socket and its transports stay open for remove_tunnel_delay
+    (default, > 0) and the outside host answers INSIDE that delay.  Whatever then travels back does so under the
+    circuit's layers: no link carries the returned payload or the plaintext cell, link i carries exactly the layers of
+    hops i+1..n, and what reaches the originator is the reply, from its source, under the circuit's id - or nothing
+    travels at all."""
+    tn = run.tn
+    if not path or path[-1][2] != "exit":
+        return 0
+    ex, xcid, _ = path[-1]
+    es = ex.exit_sockets.get(xcid)
+    if es is None or not ex.settings.remove_tunnel_delay > 0:
+        ctx.broke("scenario: retiring exit needs a live exit socket and remove_tunnel_delay > 0")
+        return 0
+    n = 0
+    ex.remove_exit_socket(xcid, "retired by the exit (as do_remove does)")
+    for _ in range(4):
+        await asyncio.sleep(0)                 # the removal task runs up to its sleep(remove_tunnel_delay)
+    for i, size in enumerate((40, 300)):
+        source = ("203.0.113.%d" % (20 + i), 4000 + i)
+        data = shaped(r, size)
+        meta = {"kind": "retiring-exit", "hops": len(c.hops), "size": size,
+                "what": "reply from outside arriving at an exit socket that is being retired (inside remove_tunnel_delay), %d hops" % len(c.hops)}
+        ev = "EvTunnelData %d %s %s" % (xcid, addr_coq(source), zl(data))
+        evs = [tn.observe(ex, ev, lambda: es.tunnel_data(source, data))]
+        await tn.drain(evs)
+        run.add_all(evs, meta)
+        n += 1
+        ctx.count(("retiring-exit", len(c.hops), size), nontrivial=True)
+        on_links = [e["datagram"][2] for e in evs[1:] if e.get("datagram")]
+        leak = [k for k, dg in enumerate(on_links) if data in dg]
+        if leak:
+            ctx.violation("backward/plaintext-on-link", "%s: the returned payload is readable on %d of the %d datagram(s) sent on "
+                          "(first: the exit -> previous hop link)" % (meta["what"], len(leak), len(on_links)), meta)
+            continue
+        if not on_links:
+            continue                           # nothing travelled: the reply was dropped at the exit
+        if expect_bwd(ctx, tn, c, evs, source, data, meta):
+            check_links(ctx, tn, c, evs, "backward", data, meta)
+    evs = []
+    return n
 
 
 async def cell_kinds(ctx, run, r, a, ca, b, label, sizes=(0, 1, 40, 279)):
@@ -1015,6 +1065,15 @@ async def replay_case(case, verbose=True):
         def count(self, *a, **k):
             pass
     ctx = Sink()
+    if case.get("kind") == "retiring-exit":
+        tn = await make_net()
+        run = Run(ctx, tn, "replay")
+        try:
+            c = await tn.build_circuit(int(case.get("hops", 2)))
+            await retiring_exit(ctx, run, r, c, path_of(tn, c))
+        finally:
+            await tn.stop()
+        return problems
     if case.get("kind") == "two-origins-one-exit":
         await two_origins_one_exit(ctx, r)
         return problems
@@ -1118,7 +1177,7 @@ def run(ctx):
                             "(thorough: all) body bytes, truncation, extension, cross-circuit and reflected splices, injection under fresh keys / unknown id / "
                             "plaintext flag, the unmodified cell from a wrong sender (first hop's IP on another port, unrelated host) at the originator; "
                             "6 (thorough 40) rounds of 2-3 circuits of different originators at one exit with gated transport opening interleaved with the "
-                            "first datagrams + replies on every transport; one end-to-end (rendezvous) circuit pair, both directions: sizes, every size 0..22, "
+                            "first datagrams + replies on every transport; replies from outside at an exit socket being retired (inside remove_tunnel_delay) per circuit; one end-to-end (rendezvous) circuit pair, both directions: sizes, every size 0..22, "
                             "non-IPv8 and IPv8-shaped payloads (foreign / own prefix), faults on every link; each event is one lockstep case; "
                             "distinct = distinct scenario parameters")
 
